@@ -72,3 +72,34 @@ Example C12_example :
   visit r {| s_status := 418; s_ctype := "image/png"; s_headers := [("X-N", "5"); ("X-A", "v")]; s_body := "b" |}
   = {| w_status := 418; w_ctype := Some "image/png"; w_headers := [("X-A", "v"); ("X-N", "5")]; w_body := Some "b" |}.
 Proof. vm_compute. split; reflexivity. Qed.
+
+(** The ResponseWriter contract (Model/Writer.v): headers reach the client only if they are set before the status is
+    written.  Every sequence that sets its headers first delivers all of them; a header set after the commit stays in
+    the live map and is lost on the wire (the sequence "status first" is refuted, and shows why an observer must read
+    the wire snapshot, not the live map).  Proofs/VisitOrderOk.v checks the criterion on the token sequences scanned
+    from strict-interface.tmpl on every run. *)
+From V Require Import Model.Writer Proofs.WriterProofs.
+
+Theorem C12_headers_set_first_reach_the_wire : forall ops,
+  sets_first ops = true -> ws_wire (wrun ops) <> None -> wire_headers (wrun ops) = ws_live (wrun ops).
+Proof. exact headers_set_first_reach_the_wire. Qed.
+Print Assumptions C12_headers_set_first_reach_the_wire.
+
+Theorem C12_template_order_delivers : forall ct hs n body,
+  let ops := (WSet "Content-Type" ct :: map (fun p => WSet (fst p) (snd p)) hs ++ [WStatus n; WBody body])%list in
+  wire_status (wrun ops) = Some n /\ wire_headers (wrun ops) = ws_live (wrun ops).
+Proof. exact template_order_delivers. Qed.
+Print Assumptions C12_template_order_delivers.
+
+Theorem C12_late_header_is_lost : forall s k v,
+  ws_wire s <> None ->
+  wire_headers (wstep s (WSet k v)) = wire_headers s /\ In (k, v) (ws_live (wstep s (WSet k v))).
+Proof. exact late_header_is_lost. Qed.
+Print Assumptions C12_late_header_is_lost.
+
+Theorem C12_status_first_refuted :
+  let e := wrun [WStatus 201; WSet "Location" "/things/7"] in
+  wire_status e = Some 201 /\ wire_headers e = [] /\ ws_live e = [("Location", "/things/7")] /\
+  sets_first [WStatus 201; WSet "Location" "/things/7"] = false.
+Proof. exact status_first_refuted. Qed.
+Print Assumptions C12_status_first_refuted.
